@@ -857,7 +857,9 @@ ExitStatus Builder::Build(string* err) {
     else
       *err = "stuck [this is a bug]";
 
-    return GetExitCode();
+    // No command failed on this path when the plan is stuck: that still is a
+    // failed build, not a successful one.
+    return GetExitCode() != ExitSuccess ? GetExitCode() : ExitFailure;
   }
 
   status_->BuildFinished();
